@@ -5,6 +5,8 @@
   C08 dec <kind> <pver> <b|w> <hex>     BtcDecode of one payload (rest reported)
   C08 msg <pver> <net> <b|w> <hex>      ReadMessageWithEncodingN on a byte stream
   C08 txbytes <hex> / blockbytes <hex>  btcutil.NewTxFromBytes / NewBlockFromBytes
+  C08 blk <ctor> <hex> <op,op,…>        btcutil.Block built by <ctor>, then a sequence of accessor calls
+  C08 utx <ctor> <hex> <op,op,…>        btcutil.Tx likewise
 -/
 import BV.Common.Hex
 import BV.Common.Sha256
@@ -102,7 +104,81 @@ def bytesToString (b : Bytes) : String := String.fromUTF8! (ByteArray.mk b.toArr
 
 def isPlainAscii (b : Bytes) : Bool := b.all (fun x => 0x61 ≤ x ∧ x ≤ 0x7a || (0x30 ≤ x ∧ x ≤ 0x39))
 
+/-! ### stateful accessor sequences on btcutil.Block / btcutil.Tx
+
+Every observation is answered from the pure specification (serialization with / without witness data,
+txid / wtxid, transaction offsets); the only state is what the caller set (height, index). Whatever a
+cache does, an answer may not depend on which accessors were called before. -/
+
+def txObs (t : Tx) (idx : Int) : String :=
+  s!"{listToHex (txid t)}:{listToHex (wtxid t)}:{if hasWitness t.2 then 1 else 0}:{idx}"
+
+def txLocs (b : Block) : List String :=
+  let start := 80 + varintSize b.2.length
+  (b.2.foldl (fun (acc : Nat × List String) t =>
+    let sz := (tx .witness).size t
+    (acc.1 + sz, s!"{acc.1}:{sz}" :: acc.2)) (start, [])).2.reverse
+
+def idxOf? (s : String) : Option Int := (s.drop 1).toString.toInt?
+
+def blkStep (b : Block) (height : Int) (op : String) : Int × String :=
+  if op == "B" then (height, "B=" ++ listToHex ((block .witness).enc b))
+  else if op == "N" then (height, "N=" ++ listToHex ((block .base).enc b))
+  else if op == "H" then (height, "H=" ++ listToHex (blockHash b.1))
+  else if op == "G" then (height, s!"G={height}")
+  else if op == "L" then (height, "L=" ++ ";".intercalate (txLocs b))
+  else if op == "T" then
+    (height, "T=" ++ ";".intercalate ((List.range b.2.length).zip b.2 |>.map (fun p => txObs p.2 p.1)))
+  else if op.startsWith "S" then
+    match idxOf? op with
+    | some n => (n, op)
+    | none => (height, "bad-op")
+  else if op.startsWith "t" || op.startsWith "h" then
+    match idxOf? op with
+    | some i =>
+      if i < 0 ∨ i ≥ b.2.length then (height, op ++ "=oor") else
+      match b.2[i.toNat]? with
+      | some t =>
+        if op.startsWith "t" then (height, op ++ "=" ++ txObs t i) else (height, op ++ "=" ++ listToHex (txid t))
+      | none => (height, op ++ "=oor")
+    | none => (height, "bad-op")
+  else (height, "bad-op")
+
+def blkRun (b : Block) (ops : List String) : String :=
+  let r := ops.foldl (fun (acc : Int × List String) op =>
+    let (h, o) := blkStep b acc.1 op
+    (h, o :: acc.2)) ((-1 : Int), [])
+  "|".intercalate r.2.reverse
+
+def utxStep (t : Tx) (idx : Int) (op : String) : Int × String :=
+  if op == "H" then (idx, "H=" ++ listToHex (txid t))
+  else if op == "W" then (idx, "W=" ++ listToHex (wtxid t))
+  else if op == "X" then (idx, s!"X={if hasWitness t.2 then 1 else 0}")
+  else if op == "I" then (idx, s!"I={idx}")
+  else if op == "M" then (idx, "M=" ++ listToHex ((tx .witness).enc t))
+  else if op.startsWith "S" then
+    match idxOf? op with
+    | some n => (n, op)
+    | none => (idx, "bad-op")
+  else (idx, "bad-op")
+
+def utxRun (t : Tx) (ops : List String) : String :=
+  let r := ops.foldl (fun (acc : Int × List String) op =>
+    let (h, o) := utxStep t acc.1 op
+    (h, o :: acc.2)) ((-1 : Int), [])
+  "|".intercalate r.2.reverse
+
 def handle : List String → String
+  | ["blk", _, h, ops] => match hexToList? h with
+    | some bs => match decodeAll (block .witness) bs with
+      | .error _ => "err"
+      | .ok b => blkRun b (ops.splitOn ",")
+    | none => "bad-op"
+  | ["utx", _, h, ops] => match hexToList? h with
+    | some bs => match decodeAll (tx .witness) bs with
+      | .error _ => "err"
+      | .ok t => utxRun t (ops.splitOn ",")
+    | none => "bad-op"
   | ["varint", h] => match hexToList? h with
     | some b => match varint.dec b with
       | .error _ => "err"
